@@ -22,8 +22,8 @@ def LookOk (strict : Bool) (reqs : Reqs) (id : Nat) : Look → Prop
   | .overflow rd none => RdOk rd ∧ (strict = true → rd.proc < rd.req) ∧
       ∀ i, rd.proc ≤ i → i < rd.req → i ∉ rd.arrived → ∃ ud, (ud, Req.ovf id i) ∈ reqs
 
-/-- the invariant; `relaxed = some id`: request `id` awaits its `resubmit_overflow` -/
-structure Inv' (val : Key → Option V) (w : W V) (relaxed : Option Nat) : Prop where
+/-- the part of the invariant about the request map; `relaxed = some id`: request `id` awaits its `resubmit_overflow` -/
+structure Core (val : Key → Option V) (w : W V) (relaxed : Option Nat) : Prop where
   keys : Keys w.reqs
   mainLt : ∀ id l k, (id, Req.main l k) ∈ w.reqs → id < w.reqIdx
   ovfGt : ∀ ud r m, (ud, Req.ovf r m) ∈ w.reqs → w.ovfIdx < ud
@@ -33,10 +33,14 @@ structure Inv' (val : Key → Option V) (w : W V) (relaxed : Option Nat) : Prop 
   ovfInj : ∀ ud ud' r m, (ud, Req.ovf r m) ∈ w.reqs → (ud', Req.ovf r m) ∈ w.reqs → ud = ud'
   mainOk : ∀ id l k, (id, Req.main l k) ∈ w.reqs → LookOk (decide (relaxed ≠ some id)) w.reqs id l
   dorm : w.dormant = w.reqs.countP isDormant
-  store : w.storeLive = true ∨ w.reqs = []
-  live : w.shutdown = false → w.storeLive = true
   ps : KSorted w.priors
   pv : ∀ k v, kvGet w.priors k = some v → v = val k
+
+/-- the invariant: `Core` + the store handle is alive as long as it may be needed -/
+structure Inv' (val : Key → Option V) (w : W V) (relaxed : Option Nat) : Prop extends Core val w relaxed where
+  store : w.storeLive = true ∨ w.reqs = []
+  live : w.shutdown = false → w.storeLive = true
+  down : w.shutdown = true → w.reqs = [] → w.storeLive = false
 
 abbrev Inv (val : Key → Option V) (w : W V) : Prop := Inv' val w none
 
